@@ -62,3 +62,18 @@ Theorem C03_base16_case_insensitive :
   forall s, Forall is_byte s -> hex_decode (ascii_upper (hex_encode s)) = hex_decode (hex_encode s).
 Proof. intros s Hs. rewrite hex_decode_upper, hex_decode_encode by exact Hs. reflexivity. Qed.
 Print Assumptions C03_base16_case_insensitive.
+
+(** the payload clause: under fail, once the length and the block digest are in order, a declared
+    payload digest that disagrees with the payload (the bytes after the HTTP header; the whole
+    block of a resource record) is the error *)
+Require Import Proofs.BuildProofs.
+Theorem C03_fail_reports_wrong_payload_digest :
+  forall tbl uni_lower H b32_decode b64_decode o rt hs b bd pd cached fnd p,
+    o_spec o = Fail -> o_add_digest o = false ->
+    length_defect tbl uni_lower hs b = false -> disagrees H b32_decode b64_decode bd = false ->
+    (rt =? 32)%N = false -> m_has tbl uni_lower n_segment_number hs = false ->
+    payload_obj rt b pd = Some p -> disagrees H b32_decode b64_decode p = true ->
+    validate_digest tbl uni_lower H b32_decode b64_decode o rt hs b bd pd cached fnd
+    = Err (KDigest, n_payload_digest) fnd.
+Proof. exact validate_digest_fail_payload. Qed.
+Print Assumptions C03_fail_reports_wrong_payload_digest.
